@@ -8,12 +8,20 @@ VALPOOL = [{"t": "Int", "v": "7"}, {"t": "String", "v": "a?b"}, {"t": "String", 
            {"t": "String", "v": "back\\"}, {"t": "Bool", "v": True}, {"t": "String", "null": True}]
 RAND_ITEMS = [i["s"] for i in ITEMS] + ["é", "中x", "'it''s ?'", "'a\\'?'", "\"q\"\"?\"", "[b?]", "]", "[[0]]", "ARRAY[[1,2],[3,4]]", " ", "\t", "::", "->>", "$10", "$01", "?1", "x_1", "1e5"]
 
+_col = lambda n: {"k": "col", "n": n}
+EXPRPOOL = [_col("a"), {"k": "asenum", "ty": "mood", "e": {"k": "const", "v": {"t": "String", "v": "sad"}}},
+            {"k": "bin", "op": "Add", "l": _col("a"), "r": {"k": "const", "v": {"t": "Int", "v": "1"}}},
+            {"k": "fn", "f": "Max", "args": [_col("b")]}, {"k": "cast", "e": _col("c"), "ty": "integer"},
+            {"k": "asenum", "ty": "mood", "e": _col("d")},
+            {"k": "tuple", "es": [_col("w"), {"k": "const", "v": {"t": "Int", "v": "100"}}]}, {"k": "tuple", "es": [_col("z")]},
+            {"k": "case", "whens": [{"c": {"k": "isnull", "neg": False, "e": _col("a")}, "r": {"k": "const", "v": {"t": "Int", "v": "0"}}}], "else": _col("a")}]
 def _sel(*exprs):
     return {"kind": "select", "calls": [{"op": "expr", "e": e} for e in exprs]}
 def _const(sv): return {"k": "const", "v": {"t": "String", "v": sv}}
 def _val(n): return {"k": "val", "v": {"t": "Int", "v": str(n)}}
 # inlined constants (not bound) next to bound values: text with quote / backslash / mark characters
-EXTRA = [_sel(_const(c), _val(7001), _const(c), _val(7002)) for c in ["a\\", "it's", "?", "$1", "a\\'b", "q\"d", "x''y", "\\", "", "[b?]", "`"]] + \
+EXTRA = [_sel({"k": "cust", "s": "$body$ hi $body$"}, _val(7003)), _sel(_val(7004), {"k": "cust", "s": "$tag$?$tag$"}, _val(7005))] + \
+        [_sel(_const(c), _val(7001), _const(c), _val(7002)) for c in ["a\\", "it's", "?", "$1", "a\\'b", "q\"d", "x''y", "\\", "", "[b?]", "`"]] + \
         [{"kind": "select", "calls": [{"op": "column", "n": "id"}, {"op": "from", "t": ["t1"]},
                                       {"op": "order_by", "e": {"k": "col", "n": "c"}, "o": {"d": "Field", "field": [{"t": "String", "v": c}, {"t": "String", "v": "k"}]}},
                                       {"op": "limit", "n": 3}]} for c in ["a\\", "it's", "?", "$1"]]
@@ -23,7 +31,8 @@ def run(tier, replay_path=None):
     wd = workdir(pid); rng = random.Random(seed()); V = Verdict(pid, tier)
     states = gen = mvs = 0
     if replay_path:
-        cases = [{"id": i, "tpl": r["tpl"], "vals": r["vals"]} for i, r in enumerate(json.load(open(replay_path))["records"])]
+        cases = [dict({"id": i, "tpl": r["tpl"], "vals": r["vals"]}, **({"exprs": r["exprs"], "single": r.get("single", False)} if r.get("exprs") else {}))
+                 for i, r in enumerate(json.load(open(replay_path))["records"]) if "tpl" in r]
     else:
         n = 3 if tier == "quick" else 4
         cfg = "SPECIFICATION Spec\nCONSTANT MaxItems = %d\nCONSTANT NVals = 3\nINVARIANT Check Emit\nCHECK_DEADLOCK FALSE\n" % n
@@ -42,6 +51,11 @@ def run(tier, replay_path=None):
         tpls = list(dict.fromkeys(tpls))
         cases = []
         for t in tpls:
+            if rng.random() < 0.2:
+                # the same template filled with value-free expressions through cust_with_exprs / cust_with_expr
+                ne = rng.randint(1, 3)
+                cases.append({"id": len(cases), "tpl": t, "vals": [], "exprs": rng.sample(EXPRPOOL, ne), "single": rng.random() < 0.5})
+                continue
             nv = rng.randint(0, 3) if rng.random() < 0.3 else 3
             vals = rng.sample(VALPOOL, nv)
             cases.append({"id": len(cases), "tpl": t, "vals": vals})
@@ -58,7 +72,7 @@ def run(tier, replay_path=None):
             # one key per diagnosed cause; undiagnosed failures keep their symptom
             ks.add("C11/%s/%s" % (parts[1], parts[-1]) if parts[-1] != "general" else k)
         for k in sorted(ks):
-            V.fail(k, {"tpl": r["tpl"], "vals": r["vals"], "obs": r["obs"]})
+            V.fail(k, dict({"tpl": r["tpl"], "vals": r["vals"], "obs": r["obs"]}, **({"exprs": r["exprs"], "single": r.get("single", False)} if r.get("exprs") else {})))
         nontriv += 1 if v["nt"] else 0
         ood += v["ood"]
         if not v["exact"]:
